@@ -279,8 +279,10 @@ def check_C03(tier, seed):
         "every enumerated and seed-chosen value (arbitrary double bit patterns incl. NaN, infinities, -0 and denormals; labels of 0..300 "
         "arbitrary bytes; 0..12 entries; larger grids and waveforms in the thorough tier) is encoded and decoded again by the library; TLC "
         "requires: Encodable => both succeed and decoded = value (an offset of -1 in schema 1.x being the only value that reads back as an empty "
-        "slot); not Encodable => the encoder throws a std::exception",
-        COMMON_ASSUME + ["strictly-increasing order of 1.x grid markers is computed by the harness (numeric comparison of doubles)"])
+        "slot); not Encodable => the encoder throws a std::exception; payload lengths on and next to multiples of the 16 KiB chunk of the "
+        "compression loop are included for every compressed kind (DeflateLoop.tla models that loop: Z_FINISH only after all input)",
+        COMMON_ASSUME + ["strictly-increasing order of 1.x grid markers is computed by the harness (numeric comparison of doubles)"],
+        extra=_deflate_model)
 
 
 def check_C04(tier, seed):
@@ -299,6 +301,30 @@ def check_C04(tier, seed):
         COMMON_ASSUME + ["for key, sample_count, beatgrid and waveform the new field bytes are not modelled: only the bytes outside the field "
                          "(fixed positions, trailing bytes) are compared"],
         extra=_setter_part)
+
+
+def _deflate_model(wd, tier, seed, vals):
+    """DeflateLoop.tla: the chunk loop of zlib_compress ends with Z_FINISH after all input, for payload lengths around the
+    chunk size; the thorough tier also requires TLC to report the loop shape of seeded change C03a (model sensitivity)."""
+    states = 0
+    for n in (0, 1, 2, 3, 4, 5, 6, 7, 9):
+        cfg = vlib.cfg_text("FairSpec", {"N": n, "Chunk": 3, "OutMax": 4, "Variant": "current"},
+                            invariants=["HandoffInBuffer", "FinishSeesEverything"], properties=["Terminates"])
+        rc, outp = vlib.run_tlc("DeflateLoop", cfg, wd, "deflate_%d" % n, workers=4, timeout=600)
+        r = vlib.parse_tlc(outp)
+        if not r["ok"]:
+            raise vlib.ToolFailure("DeflateLoop(N=%d): %s (see %s)" % (n, r["errors"][:2], outp))
+        states += r["states"] or 0
+    sens = None
+    if tier != "quick":
+        cfg = vlib.cfg_text("FairSpec", {"N": 6, "Chunk": 3, "OutMax": 4, "Variant": "finish-by-short-chunk"},
+                            invariants=["HandoffInBuffer", "FinishSeesEverything"], properties=["Terminates"])
+        rc, outp = vlib.run_tlc("DeflateLoop", cfg, wd, "deflate_variant", workers=4, timeout=600)
+        r = vlib.parse_tlc(outp)
+        sens = bool(r["errors"]) and not r["fatal"]
+        if not sens:
+            raise vlib.ToolFailure("DeflateLoop: the finish-by-short-chunk variant was not reported (see %s)" % outp)
+    return [], {"deflate_loop_model": {"states": states, "payload_lengths": "0..7, 9 with Chunk = 3", "variant_reported": sens}}, 0
 
 
 def _setter_part(wd, tier, seed, vals):
